@@ -20,7 +20,7 @@ import (
 // was never deleted or moved.
 
 func init() {
-	register(&Rule{ID: "TS-TAGKEEP", Floor: 5,
+	register(&Rule{ID: "TS-TAGKEEP", Floor: 4,
 		Doc: "every in-place removal or overwrite of an entry of Index.Manifests (in the pointer-receiver methods of types.Index) is reachable, from the point where the entry's position is chosen, only through a test of that entry's annotations, or through the ‘requested tag is empty’ edge of a removal by digest",
 		Run: runTagKeep})
 }
